@@ -14,6 +14,7 @@ import random
 
 import datarun
 import dsched
+import fixture
 import itemprops
 import sx
 from sx import sym, A
@@ -32,7 +33,7 @@ def gen(rng):
     big = 0
     for k in range(nlis):
         if rng.random() < 0.15:
-            sz = rng.choice([1, 100, 5000, 70000])
+            sz = rng.choice([1, 100, 5000, 9000, 20000, 70000])
             if sz > 60000:
                 big += 1
                 if big > 1:          # the model's byte stream is a cons list: keep runs cheap
@@ -67,6 +68,7 @@ def work(arg):
         s2 = rng.getrandbits(32)
         ch = dsched.PCTChooser(random.Random(s2), depth=rng.choice([2, 4, 8])) if i % 2 else dsched.RandomChooser(random.Random(s2))
         fine = (i % 4 == 3)
+        fixture.set_logging(i % 3 == 1)          # a third of the runs with every library logger at DEBUG
         if fine:
             # line-granular preemption (oracle only): few producers, small payloads, switches biased to stay on a thread
             sc.sizes = {k: min(v, 100) for k, v in sc.sizes.items()}
